@@ -283,17 +283,50 @@ func runC18(c *vCtx, scratch string, idx int64, k c18Case, paceTotal time.Durati
 		}
 		return nil
 	}
-	werr := wrote(headerFor(k.Size))
-	for i := 0; i < k.Count && werr == nil; i++ {
-		p := framePayload(i, k.Size, salt)
-		sent = append(sent, p)
-		werr = wrote(p)
-		if paceTotal > 0 {
-			time.Sleep(paceTotal / time.Duration(k.Count))
+	var werr error
+	if k.Chunk >= 4 && k.Size*k.Count <= 8<<20 {
+		// header and frames as ONE byte stream cut into segments that ignore frame boundaries
+		// (a sender whose writes are not frame-aligned): mode 4 random lengths, mode 5 one byte
+		// more than a frame, mode 6 one byte less
+		stream := append([]byte{}, headerFor(k.Size)...)
+		for i := 0; i < k.Count; i++ {
+			p := framePayload(i, k.Size, salt)
+			sent = append(sent, p)
+			stream = append(stream, p...)
 		}
-	}
-	if k.CutMid && werr == nil && k.Size > 1 {
-		werr = wrote(framePayload(k.Count, k.Size, salt)[:k.Size/2])
+		if k.CutMid && k.Size > 1 {
+			stream = append(stream, framePayload(k.Count, k.Size, salt)[:k.Size/2]...)
+		}
+		for len(stream) > 0 && werr == nil {
+			n := k.Size + 1
+			switch k.Chunk {
+			case 4:
+				n = rng.Range(1, 2*k.Size+10)
+			case 6:
+				n = k.Size - 1
+			}
+			if n < 1 {
+				n = 1
+			}
+			if n > len(stream) {
+				n = len(stream)
+			}
+			_, werr = a.Write(stream[:n])
+			stream = stream[n:]
+		}
+	} else {
+		werr = wrote(headerFor(k.Size))
+		for i := 0; i < k.Count && werr == nil; i++ {
+			p := framePayload(i, k.Size, salt)
+			sent = append(sent, p)
+			werr = wrote(p)
+			if paceTotal > 0 {
+				time.Sleep(paceTotal / time.Duration(k.Count))
+			}
+		}
+		if k.CutMid && werr == nil && k.Size > 1 {
+			werr = wrote(framePayload(k.Count, k.Size, salt)[:k.Size/2])
+		}
 	}
 	a.Close()
 	var herr error
@@ -391,6 +424,9 @@ func runC18(c *vCtx, scratch string, idx int64, k c18Case, paceTotal time.Durati
 		}
 	}
 	c.Count("connections", 1)
+	if k.Chunk >= 4 && k.Size*k.Count <= 8<<20 {
+		c.Count("connections_with_segments_ignoring_frame_boundaries", 1)
+	}
 	c.Count("frames_verified", int64(len(sent)))
 	c.Count("bytes_verified", int64(len(sent)*k.Size))
 	c.Count("buffers_recycled", int64(counts["w.frame.recycled"]))
@@ -460,7 +496,7 @@ func TestVerif_C18(t *testing.T) {
 			continue
 		}
 		rng := c.RNG(myIdx)
-		k := c18Case{Size: rng.PickInt(5, 6, 16, 777, 1000, 4096, 4097, 39040), Count: rng.PickInt(0, 1, 2, 100, 255, 256, 257, 300, 600, 1500), Stall: rng.Intn(5), CutMid: rng.Chance(40), Chunk: rng.Intn(4)}
+		k := c18Case{Size: rng.PickInt(5, 6, 16, 777, 1000, 4096, 4097, 39040), Count: rng.PickInt(0, 1, 2, 100, 255, 256, 257, 300, 600, 1500), Stall: rng.Intn(5), CutMid: rng.Chance(40), Chunk: rng.Intn(7)}
 		if k.Chunk == 1 && k.Size*k.Count > 30000 {
 			k.Chunk = 3
 		}
